@@ -203,6 +203,24 @@ def coneBranch (A : Pose α) (radius height : α) : Nat :=
   let b (p e q : α) : Nat := if q < p - e * radius then 1 else if p + e * radius < q then 2 else 0
   b pa.x (coneE1 axis.x) pb.x + 3 * b pa.y (coneE1 axis.y) pb.y + 9 * b pa.z (coneE1 axis.z) pb.z
 
+/-- `cone_aabb` as it was **before** the repair d7ba656:
+`a = pb - pa; e = np.sqrt(1.0 - a * a / (height * height))`.  In floating point `a` is formed
+with cancellation and `|a_i|` can exceed `height` by an ulp (NaN bounds, e.g. identity
+rotation, t = (0,0,0.1), height 0.3); at exact real arithmetic it agrees with the repaired
+function (`coneAabb_asIs_before_fix_eq`).  Kept for that theorem only. -/
+def coneAabb_asIs_before_fix (A : Pose α) (radius height : α) : Except Err (Box α) := do
+  let pa := A.t
+  let pb := A.t + height * A.R.col2
+  let a := pb - pa
+  let e1 (a : α) : Except Err α := do
+    let q ← divChecked (a * a) (height * height)
+    sqrtChecked (1 - q)
+  let ex ← e1 a.x
+  let ey ← e1 a.y
+  let ez ← e1 a.z
+  let er : V3 α := ⟨ex * radius, ey * radius, ez * radius⟩
+  pure (mkBox (vmin (pa - er) pb) (vmax (pa + er) pb))
+
 /-! ### `ellipse_aabb` -/
 
 /-- one component of `np.sqrt((radii[0] * axes[0]) ** 2 + (radii[1] * axes[1]) ** 2)` -/
